@@ -6,6 +6,8 @@ CONSTANTS NP = 2
   Cap = 99
   D = 40
   Skip <- MCSkipOpen
+  ResOut = 65531
+  ResOther = 65532
   Thin = FALSE
 INIT Init
 NEXT Next
